@@ -339,6 +339,20 @@ def compact_typestate(rep, rule, prog, cg):
         push, reset = len(stacks) == 1, len(lasts) == 1
         pop = push and ('eff', stacks[0], 'pop') in se
         restore = reset and any(t[0] == 'set' and t[1] == lasts[0] for t in se)
+        # what is pushed is the enclosing struct's last field id: the push comes before the reset
+        order = True
+        if push and reset:
+            eb = codec.effective_body(b, cg)
+            pushes = [cs for cs in eb.calls() if cs.name == 'push']
+            resets = [bi for bi, bb in enumerate(eb.bbs) if not bb['cleanup'] for st in bb['st'] if 'p' in st and codec.self_field_of_place(eb, st['p']) == lasts[0] and eb.expr_rvalue(st['r']) == ('const', 0)]
+            if pushes and resets:
+                order = all(eb.dominates(pc.bb, rb) and pc.bb != rb for pc in pushes for rb in resets)
+                pushed = [mirlib.show(mirlib.nosite(a)) for pc in pushes for a in pc.args()[1:]]
+                if not any(lasts[0] in x for x in pushed):
+                    order = False
+        if push and reset and pop and restore and not order:
+            rep.bad(rule, key, b.loc(), 'compact %s: %s resets %s before (or instead of) saving it on %s: the context restored at struct end is 0, not the enclosing field id, so the delta of the next sibling field is computed from the wrong id' % (label, bn, lasts[0], stacks[0]))
+            continue
         if push and reset and pop and restore:
             rep.ok(rule, key, '%s pushes %s and resets %s; %s pops it back' % (bn, stacks[0], lasts[0], en), b.loc())
         else:
@@ -407,3 +421,44 @@ def compact_typestate(rep, rule, prog, cg):
             rep.ok(rule, key, 'marker parked by field_begin_len is cleared by read_bool', r.loc())
         else:
             rep.bad(rule, key, r.loc(), 'compact input: field_begin_len(Bool) parks a pending-bool marker but read_bool never clears it; field_end_len then panics (assert_no_pending_bool_read) in every generated decoder with a bool field')
+
+
+def long_form_id_becomes_context(rep, rule, prog, cg):
+    """compact readers: a field id given in the long form (type byte followed by a zigzag i16) is stored as the context for
+    the next delta, exactly like one computed from a delta: no Ok exit after reading the explicit id without that store"""
+    import skippers
+    fam = Fam(prog, cg, 'compact')
+    for label, d in (('in-memory reader', fam.R), ('async reader', fam.A)):
+        sb, fb = d.get('read_struct_begin'), d.get('read_field_begin')
+        key = '%s|long-form id stored|%s' % (rule, label)
+        if sb is None or fb is None:
+            rep.anchor_missing(rule, 'compact %s read_struct_begin/read_field_begin' % label)
+            continue
+        lasts = [t[1] for t in fam.sig(sb) if t[0] == 'set' and t[2] == 'const:0']
+        if len(lasts) != 1:
+            rep.anchor_missing(rule, 'field-id context field of the compact %s' % label)
+            continue
+        b = codec.effective_body(fb, cg)
+        stores = {bi for bi, bb in enumerate(b.bbs) if not bb['cleanup'] for st in bb['st'] if 'p' in st and codec.self_field_of_place(b, st['p']) == lasts[0]}
+        explicit = [cs for cs in b.calls() if cs.name == 'read_i16' or (cs.name in ('read_varint', 'read_varint_async') and 'i16' in [str(g) for g in cs.gargs])]
+        if not explicit or not stores:
+            rep.anchor_missing(rule, 'explicit id read / context store in compact %s read_field_begin' % label)
+            continue
+        oks = set(skippers._ok_exit_blocks(b))
+        succ = b.cfg[0]
+        bad = None
+        for cs in explicit:
+            seen, stk = set(), list(succ[cs.bb])
+            while stk:
+                x = stk.pop()
+                if x in seen or x in stores:
+                    continue
+                seen.add(x)
+                if x in oks:
+                    bad = cs
+                    break
+                stk.extend(succ[x])
+        if bad is None:
+            rep.ok(rule, key, 'every Ok path after the explicit id read stores it in %s' % lasts[0], b.loc())
+        else:
+            rep.bad(rule, key, bad.loc(), 'compact %s read_field_begin can return a long-form field id without storing it in %s: the next short-form header is then resolved against the id before it (spec: deltas are relative to the previous field id, however that one was encoded)' % (label, lasts[0]))
